@@ -318,17 +318,19 @@ Section V.
     | PHEV _ cd _ _ _ => create_energy N (pm_ideal cd) (pm_eru cd) distance du
     end.
 
-  (* note (faithful): BEV and PHEV add the best-case energy labelled with the BATTERY unit and feed
-     it unconverted to update_soc_percent, whatever the energy unit of the rate *)
+  (* BEV / PHEV (after fix 0840f02): the best-case energy comes in the rate's energy unit; it is
+     recorded with that unit and converted into the battery unit for the charge, as consume_energy does *)
   Definition best_case_energy_state (v : vehicle) (distance : N) (du : dist_unit) (st : state) (sm : smodel)
       : res state :=
     do eu <- best_case_energy v distance du;
     let energy := fst eu in
+    let energy_unit := snd eu in
     match v with
     | ICE r => add_energy sm st n_liquid energy (energy_rate_energy_unit (pm_eru r))
     | BEV _ cap _ bu | PHEV _ _ cap _ bu =>
-        do st1 <- add_energy sm st n_electric energy bu;
-        update_soc_percent sm st1 n_soc energy cap
+        let battery_delta := convert_energy N energy_unit bu energy in
+        do st1 <- add_energy sm st n_electric energy energy_unit;
+        update_soc_percent sm st1 n_soc battery_delta cap
     end.
 
   (* phev.rs get_phev_energy: (electric, its unit, liquid, its unit) and the caches *)
